@@ -518,14 +518,10 @@ where
         // So we must push the same item to `setBuf` with the deletion flag.
         // This ensures that if a set is followed by a delete, it will be
         // applied in the correct order.
-        self.insert_buf_tx
-            .try_send(Item::delete(index, conflict))
-            .map_err(|e| {
-                CacheError::ChannelError(format!(
-                    "failed to send message to the insert buffer: {}",
-                    &e
-                ))
-            })?;
+        // The delete must not be dropped when the buffer is full (an earlier set of the same
+        // key would then be applied after it), so wait for room. The send only fails when the
+        // processor is gone, and then there is nothing left to order against.
+        let _ = self.insert_buf_tx.send(Item::delete(index, conflict));
 
         Ok(())
     }
